@@ -1,4 +1,4 @@
-package main
+package embx
 
 import (
 	"fmt"
@@ -39,7 +39,7 @@ func destVals(m abi.Method, dst interface{}) []interface{} {
 }
 
 // runAbi: hostile byte strings through the real ABIxxx.UnpackMethod (and UnpackValues) under recover
-func runAbi(rng *rand.Rand, n int, out *Out, _ []string) {
+func RunAbi(rng *rand.Rand, n int, out *Out, _ []string) {
 	type mref struct {
 		abi  namedABI
 		name string
